@@ -213,6 +213,24 @@ theorem toerror_spec {V E} (err : E) (f : List V → List V × Bool) (args : Lis
 example : toError 4 (fun a => (a, false)) [1, 2] = { res := [1, 2], err := some 4, log := [(0, [1, 2])] } := by decide
 example : toError 4 (fun a => (a, true)) [1, 2] = { res := [1, 2], err := (none : Option Nat), log := [(0, [1, 2])] } := by decide
 
+/-- no state between calls: what one invocation of the derived function returns depends only on what `f`
+returns in THAT invocation (its other results and whether it reports true) and on the supplied error -/
+theorem toerror_stateless {V E} (err : E) (f f' : List V → List V × Bool) (args args' : List V)
+    (h : f args = f' args') :
+    (toError err f args).res = (toError err f' args').res ∧ (toError err f args).err = (toError err f' args').err := by
+  simp only [toError, h]
+  cases f' args' with
+  | mk outs ok => cases ok <;> exact ⟨rfl, rfl⟩
+
+/-- a sequence of invocations of one derived function value (f behaving as `fs[i]` in call `i`) is the
+sequence of the single-call specifications, in every order of successes and failures -/
+theorem toerror_sequence {V E} (err : E) (fs : List (List V → List V × Bool)) (args : List V) :
+    fs.map (fun f => toError err f args) = fs.map (fun f => toErrorSpec err f args) := by
+  simp only [toError_eq_spec]
+
+example : [fun a => (a, true), fun a => (a, false), fun a => (a, true)].map (fun f => (toError 4 f [1]).err)
+    = [none, some 4, (none : Option Nat)] := by decide
+
 /-- the toerror wrapper has the naming structure of the C15 wrappers: it compiles when every
 parameter of `f` has a name that is none of the helper's own `f`, `err`, `success`, `out<i>` -/
 theorem toerror_compiles_partial (cfg : Plumb.Cfg) (ps : List Plumb.Param)
